@@ -1,3 +1,8 @@
 import LasModel.Props.C06
 open LasModel.Props.C06
-#print axioms C06_placeholder
+#print axioms LasModel.Appender.appendAll_form
+#print axioms statsOfHdr_final
+#print axioms append_sameEnc
+#print axioms C06_bytes
+#print axioms C06_format
+#print axioms C06_sessions
